@@ -7,7 +7,17 @@ import core
 LEVEL = "exploration"
 
 
-MATCHERS = {}
+def m_classic_recursive_macro(v, params):
+    # the classic compiler (no dialect sigil) expands a defmacro whose template calls the macro itself until the allocator
+    # is exhausted (minutes): a timeout, or the panic of an unwrap on TooManyPairs
+    t = v.get("text", "")
+    m = re.search(r"\(defmacro (\w+) ", t)
+    slow = v["kind"] == "entry-point-timeout" or (v["kind"] == "entry-point-panic" and "TooManyPairs" in json.dumps(v.get("observed")))
+    return slow and v["entry"] in ("compile", "run", "brun", "cldb", "preprocess") and "(include *" not in t \
+        and m is not None and re.search(r"\(defmacro " + re.escape(m.group(1)) + r" .*\(" + re.escape(m.group(1)) + r"[ )]", t) is not None
+
+
+MATCHERS = {"classic_recursive_macro": m_classic_recursive_macro}
 
 
 def _drive(acc, n):
